@@ -249,8 +249,8 @@ PropViolations(e, o) ==
   \cup (IF e.ev # "Done" /\ e.ms > 5000
         THEN {<<"C13", "a call took more than five seconds">>} ELSE {})
   \cup (IF e.ev = "Recv" /\ HasEv(e, "smp:Success") /\ e.m.t = "D" /\
-             (e.atk # "" \/ e.m.smp.ok # "ok" \/ e.m.smp.sec # st[p].smpsec)
-        THEN {<<IF e.atk # "" \/ e.m.smp.ok # "ok" THEN "C12" ELSE "C11", "SMP reported success although the secrets bound by the two parties differ or the message was deviant">>} ELSE {})
+             (e.m.smp.ok # "ok" \/ e.m.smp.sec # st[p].smpsec)
+        THEN {<<IF e.m.smp.ok # "ok" THEN "C12" ELSE "C11", "SMP reported success although the secrets bound by the two parties differ or the message was deviant">>} ELSE {})
   \cup (IF e.ev = "Done" /\ o.fam = "smpdev" /\ ~(o.smpok["A"] /\ o.smpok["B"])
         THEN {<<"C12", "after a deviant SMP message an honest run with equal secrets did not succeed on both sides">>} ELSE {})
   \cup (IF e.ev # "Done" /\ \E i \in DOMAIN e.st.held : e.st.held[i] \notin {e.st.cur, e.st.prev, e.st.ax}
